@@ -108,6 +108,8 @@ func checkC06(c *Ctx, r *Report) {
 		}
 		checkDriverOrder(c, r, found)
 	}
+	// ... the lookup flag of RAKP Message 1, which shares a byte with the level, for every username (shared with C01)
+	checkRoleByteWire(c, r)
 	// ... and the commands the library builds for the caller carry the caller's arguments
 	checkHelperRequests(c, r)
 	// ... of commands whose definitions (operation tables) nothing rewrites at run time (shared with C19, C03)
